@@ -161,6 +161,11 @@ func (m *Model) judgeESDTTransfer(c *Call, v *Verdict) {
 		if value.Cmp(m.acc(c.Shard, c.Caller).bal(suffix)) > 0 {
 			v.fail(pOverdraft, "ESDTTransfer/overdraft", "transfer of %v exceeds the sender's holding %v", value, m.acc(c.Shard, c.Caller).bal(suffix))
 		}
+		if e := m.acc(c.Shard, c.Caller).entry(suffix); e.Meta != nil && value.Sign() > 0 {
+			// the identifier argument spells the storage key of an NFT / SFT holding (token + nonce bytes): a plain balance
+			// transfer would move its quantity without the metadata and leave a metadata-less entry under an NFT key
+			v.fail([]string{"C08", "C15"}, "ESDTTransfer/moves-nft-holding-as-plain-balance", "the identifier %x is the key of the sender's NFT/SFT holding (nonce %d): its quantity must not travel as a plain balance, without the metadata", token, e.Meta.Nonce)
+		}
 		m.flagChecks(v, c, c.Caller, token, suffix, "ESDTTransfer/sender")
 		v.Charge = u64p(m.gas(c.Shard, "ESDTTransfer"))
 	}
